@@ -88,6 +88,37 @@ def KP.holds (env : Env) (src : List Char) (t : Tok) : KP → Bool
   | .notPluralNominal => !t.kind.isWord || hasFlag env src t 14
   | .word => t.kind.isWord
 
+/-- closures `|tok, source| …` that shipped rules pass to `then(..)` / `or(..)` as patterns (the blanket
+`impl Pattern for F: Fn(&Token, &[char]) -> bool`) -/
+inductive Closure where
+  /-- then_than.rs `is_comparative_adjective`: an adjective whose text ends in `er` or is `less` / `more` / `worse` -/
+  | comparativeAdjective
+  /-- possessive_your.rs: `is_nominal() && !is_likely_homograph() && content != ['g','u','y','s']` -/
+  | yourNominal
+  /-- confident.rs: `is_verb() || is_determiner()` -/
+  | verbOrDeterminer
+  deriving Repr, DecidableEq, Inhabited
+
+/-- `slice::ends_with` -/
+def endsWith (cs sfx : List Char) : Bool := decide (sfx.length ≤ cs.length) && cs.drop (cs.length - sfx.length) == sfx
+
+/-- the closure's body: `get_content` is reached only behind the `&&` / `then(||…)` guards in front of it -/
+def Closure.test (env : Env) (c : Closure) (src : List Char) (t : Tok) : Except Panic Bool :=
+  match c with
+  | .comparativeAdjective =>
+    if !hasFlag env src t 3 then .ok false else
+    match t.span.getContent src with
+    | .error e => .error e
+    | .ok cs => .ok (endsWith cs ['e', 'r'] || cs == ['l', 'e', 's', 's'] || cs == ['m', 'o', 'r', 'e'] || cs == ['w', 'o', 'r', 's', 'e'])
+  | .yourNominal =>
+    if !hasFlag env src t 6 then .ok false
+    else if hasFlag env src t 2 then .ok false
+    else
+      match t.span.getContent src with
+      | .error e => .error e
+      | .ok cs => .ok (cs != ['g', 'u', 'y', 's'])
+  | .verbOrDeterminer => .ok (hasFlag env src t 7 || hasFlag env src t 4)
+
 inductive Leaf where
   /-- `then_<q>()` (`neg = false`) / `then_anything_but_<q>()` (`neg = true`) / `then_any_word()` -/
   | kind (q : KP) (neg : Bool)
@@ -117,6 +148,8 @@ inductive Leaf where
   | impliesQuantity
   /-- `SplitCompoundWord::new(|meta| <flag `bit` of meta>)` -/
   | splitCompound (bit : Nat)
+  /-- a rule's own closure used as a pattern -/
+  | closure (c : Closure)
   deriving Repr, DecidableEq, Inhabited
 
 /-- `impl Pattern for F: Fn(&Token, &[char]) -> bool` with a closure that may index the source -/
@@ -243,6 +276,7 @@ def Leaf.matcher (env : Env) : Leaf → Matcher
   | .nominalPhrase => nominalPhraseAtom env
   | .impliesQuantity => impliesQuantityAtom env
   | .splitCompound bit => splitCompoundAtom env bit
+  | .closure c => tokAtomE (c.test env)
 
 /-! ## combinators not yet in `Model/Condense.lean` -/
 
